@@ -116,6 +116,13 @@ def step (st : St) (fs : List String) : St × String :=
       | some rep => let rep' := rep.restart; (st.set r rep', showState rep')
       | none => (st, "bad-op")
     | none => (st, "bad-op")
+  | ["persist", r, idx] =>
+    -- raft persists the replica's LOCAL snapshot taken at position idx (FSM.witnessSnapshot)
+    match parseNat? r, parseNat? idx with
+    | some r, some idx => match st[r]? with
+      | some rep => if idx > rep.latest then (st, "bad-op") else let rep' := rep.witness idx; (st.set r rep', showState rep')
+      | none => (st, "bad-op")
+    | _, _ => (st, "bad-op")
   | ["snap", d, s] =>
     match parseNat? d, parseNat? s with
     | some d, some s => match st[d]?, st[s]? with
